@@ -269,6 +269,8 @@ def jobs(tier):
     T = tier == "thorough"
     js = []
     I = [("intel_cyclone4", "CycloneIVPLL", dict(speedgrade="-6"), dict(n=(1, 2), m=(12, 2), c=(2, 3)), 1, 1e-2, "low_1out"),
+         # window at the lower phase-detector limit: the largest legal input divider N = floor(clkin / pfd_min) is inside the window
+         ("intel_cyclone4", "CycloneIVPLL", dict(speedgrade="-6"), dict(n=(10, 2), m=(130, 2), c=(3, 2)), 1, 1e-2, "pfd_floor_1out"),
          ("intel_max10", "Max10PLL", dict(speedgrade="-6"), dict(n=(1, 2), m=(20, 2), c=(4, 2)), 2, 1e-2, "mid_2out")]
     if T:
         I += [("intel_cyclone5", "CycloneVPLL", dict(speedgrade="-C6"), dict(n=(1, 3), m=(10, 3), c=(2, 3)), 1, 1e-3, "low_1out"),
@@ -277,6 +279,7 @@ def jobs(tier):
     for (modn, cls, ckw, win, nout, mg, tag) in I:
         js.append(Job("%s_%s" % (cls.lower(), tag), job_intel, dict(modname=modn, clsname=cls, ckw=ckw, win=win, nout=nout, margin=mg, tag=tag), cost=40 * nout * nout, timeout_s=7000))
     js.append(Job("nxpll_low_1out", job_nx, dict(win=dict(clki_div=(1, 2), clkfb_div=(80, 3), clko_div=(1, 3)), nout=1, margin=1e-2, tag="low_1out"), cost=20, timeout_s=7000))
+    js.append(Job("gw1npll_tiny_2out", job_gowin, dict(win=dict(idiv=(1, 1), fdiv=(4, 1)), nout=2, margin=1e-2, tag="tiny_2out"), cost=90, timeout_s=3000))
     js.append(Job("gw1npll_low_1out", job_gowin, dict(win=dict(idiv=(1, 2), fdiv=(1, 3)), nout=1, margin=1e-2, tag="low_1out"), cost=30, timeout_s=7000))
     if T:
         js.append(Job("nxpll_mid_2out", job_nx, dict(win=dict(clki_div=(2, 2), clkfb_div=(30, 2), clko_div=(4, 3)), nout=2, margin=1e-2, tag="mid_2out"), cost=100, timeout_s=7000))
